@@ -133,6 +133,91 @@ Lemma go_batchKey : forall sq b,
   run_fun gen_funs [] "batchKey" None [VN sq; VHashQ b] = Some [VKeyQ sq].
 Proof. intros. qlazy. reflexivity. Qed.
 
+(* ---- the Sequencer around the queue (sequencers/single/sequencer.go SubmitBatchTxs, GetNextBatch, isValid) ---- *)
+Definition seqobj (me : N) (m : list Queue.entry) (next max : N) : gval :=
+  VObj "Sequencer" [("Id", VChainQ me); ("queue", qobj m next max true); ("logger", VUnit)].
+Definition seq_globals : env := [("ErrQueueFull", VErrTag "ErrQueueFull"); ("ErrInvalidId", VErrTag "ErrInvalidId")].
+(* a request: its chain id and what it carries (Queue.sub: nil batch / no transactions / a batch) *)
+Definition req_of (id : N) (sb : Queue.sub) : gval :=
+  VRec [("Id", VChainQ id);
+        ("Batch", match sb with
+                  | Queue.SNil => VNil
+                  | Queue.SEmpty => VRec [("Transactions", VList [])]
+                  | Queue.SB _ b => VRec [("Transactions", VTxsQ b)]
+                  end)].
+(* the queue inside a sequencer object *)
+Definition seq_queue (v : gval) : option (list Queue.entry * N) :=
+  match v with VObj _ fs => match lookup fs "queue" with Some q => qabs q | None => None end | _ => None end.
+Definition seq_after (effs : list gval) : option (list Queue.entry * N) :=
+  match rev effs with
+  | e :: _ => match is_receiver e with Some o => seq_queue o | None => None end
+  | [] => None
+  end.
+Definition err_class (v : gval) : string :=
+  match v with VNil => "ok" | VErrTag t => t | _ => "error" end.
+
+Ltac slazy := lazy -[N.eqb N.ltb N.leb N.add llen lapp qbatches qkeys zipq].
+
+(* SubmitBatchTxs: Queue.step_mem (OSubmit (id = own id) sb), the key of an accepted batch being batchKey(nextSeq):
+   the error class (nil / ErrInvalidId / an error that IS ErrQueueFull), the datastore writes, the queue afterwards *)
+Lemma go_SubmitBatchTxs : forall me id m next max sb,
+  (match sb with Queue.SB k _ => k = next | _ => True end) ->
+  match run_eff gen_funs seq_globals "Sequencer.SubmitBatchTxs" (Some (seqobj me m next max)) [VUnit; req_of id sb] with
+  | Some ([_; e], effs) =>
+      let '(m', out, ws) := Queue.step_mem max m (Queue.OSubmit (id =? me)%N sb) in
+      err_class e = match out with Queue.ROk => "ok" | Queue.RInvalidId => "ErrInvalidId" | Queue.RFull => "ErrQueueFull" | _ => "?" end /\
+      fst (qsplit effs) = ws /\
+      seq_after effs = Some (m', match out, sb with Queue.ROk, Queue.SB _ _ => (next + 1)%N | _, _ => next end)
+  | _ => False
+  end.
+Proof.
+  intros me id m next max sb Hk. unfold seqobj, qobj, req_of, Queue.step_mem, Queue.full.
+  rewrite <- llen_qbatches.
+  destruct sb as [| |k b]; [| |subst k].
+  - slazy. rewrite (N.eqb_sym me id). destruct (id =? me)%N; cbv beta iota.
+    + repeat split. cbv -[zipq qkeys qbatches lapp N.add]. rewrite zipq_map. reflexivity.
+    + repeat split. cbv -[zipq qkeys qbatches lapp N.add]. rewrite zipq_map. reflexivity.
+  - slazy. rewrite (N.eqb_sym me id). destruct (id =? me)%N; cbv beta iota.
+    + repeat split. cbv -[zipq qkeys qbatches lapp N.add]. rewrite zipq_map. reflexivity.
+    + repeat split. cbv -[zipq qkeys qbatches lapp N.add]. rewrite zipq_map. reflexivity.
+  - slazy. rewrite (N.eqb_sym me id). destruct (id =? me)%N; cbv beta iota.
+    + destruct (0 <? max)%N; cbv beta iota.
+      * destruct (max <=? llen (qbatches m))%N; cbv beta iota.
+        -- repeat split. cbv -[zipq qkeys qbatches lapp N.add]. rewrite zipq_map. reflexivity.
+        -- repeat split. cbv -[zipq qkeys qbatches lapp N.add]. rewrite zipq_app. reflexivity.
+      * repeat split. cbv -[zipq qkeys qbatches lapp N.add]. rewrite zipq_app. reflexivity.
+    + repeat split. cbv -[zipq qkeys qbatches lapp N.add]. rewrite zipq_map. reflexivity.
+Qed.
+
+(* GetNextBatch: Queue.step_mem (ONext (id = own id)) *)
+Lemma go_GetNextBatch : forall me id m next max,
+  match run_eff gen_funs seq_globals "Sequencer.GetNextBatch" (Some (seqobj me m next max)) [VUnit; VRec [("Id", VChainQ id)]] with
+  | Some ([r; e], effs) =>
+      let '(m', out, ws) := Queue.step_mem max m (Queue.ONext (id =? me)%N) in
+      err_class e = match out with Queue.RInvalidId => "ErrInvalidId" | _ => "ok" end /\
+      (match out with
+       | Queue.RBatch b => exists ts, r = VRec [("Batch", VBatchQ b); ("Timestamp", ts)]
+       | Queue.REmpty => exists ts, r = VRec [("Batch", VRec [("Transactions", VNil)]); ("Timestamp", ts)]
+       | _ => r = VNil
+       end) /\
+      fst (qsplit effs) = ws /\
+      seq_after effs = Some (m', next)
+  | _ => False
+  end.
+Proof.
+  intros me id m next max. unfold seqobj, qobj, Queue.step_mem.
+  destruct m as [|[k b] m].
+  - unfold qbatches, qkeys; cbn [map]. slazy. rewrite (N.eqb_sym me id). destruct (id =? me)%N; cbv beta iota.
+    + repeat split. eexists; reflexivity.
+    + repeat split.
+  - change (qbatches ((k, b) :: m)) with (VBatchQ b :: qbatches m). change (qkeys ((k, b) :: m)) with (VKeyQ k :: qkeys m).
+    slazy. rewrite (N.eqb_sym me id). destruct (id =? me)%N; cbv beta iota.
+    + repeat split. eexists; reflexivity. cbv -[zipq qkeys qbatches lapp N.add]. rewrite zipq_map. reflexivity.
+    + repeat split. cbv -[zipq qkeys qbatches lapp N.add].
+      change (VKeyQ k :: qkeys m) with (qkeys ((k, b) :: m)). change (VBatchQ b :: qbatches m) with (qbatches ((k, b) :: m)).
+      rewrite zipq_map. reflexivity.
+Qed.
+
 (* every lemma is closed under the global context (bin/tr-golite fails on any "Axioms:" line) *)
 Print Assumptions go_AddBatch_raw.
 Print Assumptions go_AddBatch.
@@ -140,3 +225,5 @@ Print Assumptions go_AddBatch_put_fails.
 Print Assumptions go_Next_empty.
 Print Assumptions go_Next_head.
 Print Assumptions go_batchKey.
+Print Assumptions go_SubmitBatchTxs.
+Print Assumptions go_GetNextBatch.
